@@ -321,7 +321,7 @@ package scan
 // error becomes the request's error; an excluded address is dropped; everything else passes unchanged.
 // emitted <=> not excluded (C02).
 //@ func (*filterIPRequestGenerator).GenerateRequests$1
-//@   props C13 C02 C01 C12 C07
+//@   props C13 C02 C01 C12 C07 C19
 //@   observe Contains
 //@   loop 0 row cancel:   [ctxdone ; close out] -> exit
 //@   loop 0 row closed:   [recv requests as (rq, false) ; close out] -> exit
@@ -338,11 +338,11 @@ package scan
 // nothing outside it ever is (confinement). FillBytes cannot panic (0 <= NET + I - 1 < 2^32).
 //@ pred IPv4Net(n *net.IPNet) = n != nil && len(n.IP) == 4 && len(n.Mask) == 4
 //@ func (*ipGenerator).IPs
-//@   props C01 C02 C04
+//@   props C01 C02 C04 C19
 //@   requires r != nil && (r.DstSubnet != nil ==> IPv4Net(r.DstSubnet))
 //@   ensures nosubnet: old(r.DstSubnet) == nil ==> ret0 == nil && ret1 == ErrSubnet
 //@ func (*ipGenerator).IPs$1
-//@   props C01 C02 C12 C04
+//@   props C01 C02 C12 C04 C19
 //@   observe FillBytes, Next
 //@   requires it != nil && RI(it) && baseIP != nil && distinct(baseIP, it.P, it.G, it.I, it.startI, it.rangeLimit)
 //@   requires 1 <= big(it.I) && big(it.I) <= big(it.rangeLimit)
@@ -419,12 +419,12 @@ package scan
 
 // port-less scans (arp, icmp): one request per address of the single pass
 //@ func (*ipRequestGenerator).GenerateRequests$1
-//@   props C01 C12 C13 C07
+//@   props C01 C12 C13 C07 C19
 //@   observe GetIP
 //@   loop 0 row closed:  [recv ips as (a, false) ; close out] -> exit
 //@   loop 0 row request: [recv ips as (a, true) ; call GetIP(a) as (dstip, e) ; send? out bind_x] when x.DstIP == dstip && x.Err == e && x.SrcIP == r.SrcIP && x.SrcMAC == r.SrcMAC -> continue
 //@ func (*ipRequestGenerator).GenerateRequests
-//@   props C01
+//@   props C01 C19
 //@   observe IPs
 //@   entry row noips: [call IPs(rg.ipgen, ctx, r) as (is, e)] when e != nil && ret0 == nil && ret1 == e -> exit
 //@   entry row start: [call IPs(rg.ipgen, ctx, r) as (is, e) ; go (*ipRequestGenerator).GenerateRequests$1{out: bind_o, ips: bind_is2, ctx: bind_c, r: bind_r2}]
